@@ -506,6 +506,22 @@ func TestVerifC11(t *testing.T) {
 		}
 	}
 
+	// (2a') many small segments of several transfers in ONE direction at the same time: the per-transfer
+	// state of the sender (stream position, segment buffer) must not be shared between transfers
+	nDense := 4
+	if thorough {
+		nDense = 16
+	}
+	for i := 0; i < nDense; i++ {
+		var ab []bpv7.Bundle
+		for k := 0; k < 4; k++ {
+			ab = append(ab, verifBundle(120+r.intn(80), r))
+		}
+		for _, line := range verifConc(ab, nil, uint64(1+i%3)) {
+			emit(line)
+		}
+	}
+
 	// (2b) concurrent senders in both directions
 	nConc := 6
 	if thorough {
